@@ -54,7 +54,7 @@ func (sc *scenario) node(i int) *node.Node { return sc.w.Nodes[i] }
 
 // per-profile favoured templates (70 % of the draws); every profile still draws from the full lists
 var favTx = map[string][]string{
-	"value":  {"valid", "yield-swap", "fee-exact", "fee-low", "fee-plus1", "overflow", "many-outputs", "consolidate", "zero-output"},
+	"value":  {"valid", "yield-swap", "fee-exact", "fee-low", "fee-plus1", "overflow", "huge-output", "huge-output", "many-outputs", "consolidate", "zero-output"},
 	"spend":  {"valid", "double-spend", "same-input-twice", "spend-pooled", "spend-last-block", "duplicate", "bad-index", "unknown-ref"},
 	"owner":  {"valid", "valid", "bad-sig", "zero-sig", "wrong-owner", "foreign-sig", "replay-sig", "replay-sig", "unknown-ref"},
 	"shape":  {"valid", "ts-old", "ts-last", "ts-next", "ts-future"},
@@ -64,8 +64,8 @@ var favTx = map[string][]string{
 	"agree":  {"valid", "valid", "yield-swap", "yield-swap", "fee-exact", "ts-last", "ts-next", "yield-new", "yield-registered", "consolidate", "zero-output", "spend-last-block", "spend-pooled"},
 }
 var favBreak = map[string][]string{
-	"value":  {"reward-plus1", "low-fee", "ok-fee"},
-	"spend":  {"double-spend", "unknown-input", "ok-fee"},
+	"value":  {"reward-plus1", "low-fee", "ok-fee", "huge-output"},
+	"spend":  {"double-spend", "unknown-input", "ok-fee", "replay-tx", "replay-tx"},
 	"owner":  {"bad-sig-tx", "steal", "ok-fee"},
 	"shape":  {"bad-ts", "no-reward", "two-rewards", "tx-future", "tx-old", "unlinked"},
 	"income": {"yield-unregistered", "yield-listed", "removed-listed"},
@@ -119,7 +119,7 @@ func (sc *scenario) value(u *ledger.Utxo, at int64) uint64 {
 }
 
 var txKinds = []string{"valid", "valid", "valid", "valid", "fee-exact", "fee-low", "fee-plus1", "double-spend", "duplicate", "bad-sig",
-	"zero-sig", "wrong-owner", "foreign-sig", "replay-sig", "unknown-ref", "bad-index", "ts-old", "ts-last", "ts-next", "ts-future", "overflow",
+	"zero-sig", "wrong-owner", "foreign-sig", "replay-sig", "unknown-ref", "bad-index", "ts-old", "ts-last", "ts-next", "ts-future", "overflow", "huge-output",
 	"yield-new", "yield-twice", "yield-registered", "yield-swap", "same-input-twice", "spend-pooled", "spend-last-block", "zero-output", "many-outputs", "consolidate"}
 
 func (sc *scenario) makeTx(n *node.Node, kind string) (*ledger.Transaction, string) {
@@ -312,6 +312,10 @@ func (sc *scenario) makeTx(n *node.Node, kind string) (*ledger.Transaction, stri
 	case "overflow":
 		pickSome(1)
 		return mk(spends, []node.RawOutput{{Address: other().Address, Value: 1 << 63}, {Address: other().Address, Value: (1 << 63) + uint64(r.Intn(1000))}}, ts), kind
+	case "huge-output": // one output just below 2^64: no sum of OUTPUTS wraps, but outputs + fee does
+		pickSome(1)
+		hv := pick(r, []uint64{^uint64(0), ^uint64(0) - S.MinFee + 1, ^uint64(0) - S.MinFee, ^uint64(0) - S.MinFee - 1, ^uint64(0) - inV, ^uint64(0) - inV + S.MinFee})
+		return mk(spends, []node.RawOutput{{Address: other().Address, Value: hv}}, ts), kind
 	case "yield-new":
 		pickSome(1)
 		return mk(spends, outs(inV, S.MinFee, "new"), ts), kind
@@ -419,7 +423,7 @@ func (sc *scenario) findUtxoAnywhere(n *node.Node, id string, idx uint16) utxoRe
 // ---------------------------------------------------------------- adversarial chains
 
 var breakKinds = []string{"bad-ts", "no-reward", "two-rewards", "reward-plus1", "bad-sig-tx", "unknown-input", "double-spend", "tx-future",
-	"tx-old", "low-fee", "ok-fee", "yield-unregistered", "yield-listed", "unlinked", "removed-listed", "steal"}
+	"tx-old", "low-fee", "ok-fee", "yield-unregistered", "yield-listed", "unlinked", "removed-listed", "steal", "huge-output", "replay-tx"}
 
 // mutate returns base[0..h) + a block at height h broken in exactly one way + `fill` reward-only blocks.
 func (sc *scenario) mutate(n *node.Node, base []*ledger.Block, h int, kind string, fill int) []*ledger.Block {
@@ -525,6 +529,20 @@ func (sc *scenario) mutate(n *node.Node, base []*ledger.Block, h int, kind strin
 		if !addTx(func(raw *node.RawTx, u spendRef) { raw.Outputs[0].Value += 1 }) {
 			return nil
 		}
+	case "huge-output": // outputs just below 2^64 against a small input
+		if !addTx(func(raw *node.RawTx, u spendRef) {
+			raw.Outputs[0].Value = pick(r, []uint64{^uint64(0), ^uint64(0) - S.MinFee + 1, ^uint64(0) - S.MinFee})
+		}) {
+			return nil
+		}
+	case "replay-tx": // a valid transaction dated exactly as the block (the one date both windows accept), included
+		// again by the NEXT block
+		if !addTx(func(raw *node.RawTx, u spendRef) { raw.Timestamp = blk.Timestamp }) {
+			return nil
+		}
+		if fill < 1 {
+			fill = 1
+		}
 	case "ok-fee": // a VALID extra transaction: the chain may legitimately be adopted
 		if !addTx(func(raw *node.RawTx, u spendRef) {}) {
 			return nil
@@ -557,7 +575,11 @@ func (sc *scenario) mutate(n *node.Node, base []*ledger.Block, h int, kind strin
 	for i := 0; i < fill; i++ {
 		ts += S.Interval
 		fb := &node.RawBlock{Timestamp: ts}
-		fb.SetTxs(node.RewardRaw(adv.Address, false, ts, 0))
+		if kind == "replay-tx" && i == 0 {
+			fb.SetTxs(blk.Txs()[0], node.RewardRaw(adv.Address, false, ts, 0))
+		} else {
+			fb.SetTxs(node.RewardRaw(adv.Address, false, ts, 0))
+		}
 		raws = append(raws, fb)
 	}
 	chain, err := node.Relink(raws)
@@ -797,7 +819,9 @@ func (sc *scenario) run(maxOps int) {
 			}
 		case roll < 28: // irregular ticks
 			last := n.Chain.LastBlockTimestamp()
-			ts := pick(r, []int64{last, last + 2*S.Interval, last + S.Interval, last + 3*S.Interval})
+			// repeated, skipped, on time, skipped twice, and LATE (aligned, behind a tip adopted from a peer or produced
+			// ahead of this tick): all inside C04's "aligned ticks"
+			ts := pick(r, []int64{last, last + 2*S.Interval, last + S.Interval, last + 3*S.Interval, last - S.Interval, last - 2*S.Interval})
 			if sc.profile == "offgrid" { // outside C04's quantifier (aligned ticks): model conformance only
 				ts = pick(r, []int64{last + S.Interval/2, last - S.Interval, last + 1, last + S.Interval - 1})
 			}
